@@ -267,6 +267,21 @@ def prov_failure_states(chk: Check) -> None:
     ce = [c for c in calls_in_func(cb, 'callback_excepted')]
     ok = len(ce) == 1 and caught_exception_args(cb, ce[0], ce[0].args[1:])
     chk.ob('PROV-failure-state', cb, ok, 'a failing scheduled callback reports its exception and traceback to callback_excepted', node=ce[0] if ce else None, kind='callback-exc-info')
+    # ... to a process it still knows: the handle's attributes are cleared by cancel() (another role, any time while the callback is awaited), so
+    # the report must not go through an attribute that a sibling method sets to None unless it is known to be set in this very region
+    if ce:
+        cbf = chk.ctx.facts.analyse(cb)
+        recv = cbf.canon.key(ce[0].func.value)
+        cleared = set()
+        pc_cls = cb.owner_class
+        for g in (pc_cls.methods.values() if pc_cls is not None else []):
+            for n_ in ast.walk(g.node):
+                if isinstance(n_, ast.Assign) and norm(n_.value) == 'None' and g is not cb:
+                    cleared |= {norm(t_) for t_ in n_.targets}
+        ok2 = recv not in cleared or all(any(a_[0] in ('notnone', 'T') and a_[1] == recv for a_ in fs) for _, fs in cbf.site_facts(ce[0]))
+        chk.ob('PROV-failure-state', cb, ok2, f'the failure is reported to {recv}, which ' + ('is not cleared by another method of the handle' if recv not in cleared else
+               'cancel()/_cleanup() set to None while the callback is being awaited: the report raises AttributeError into the event loop and the user\'s exception is lost'),
+               node=ce[0], kind='callback-process-known')
     ce_f = prog.func('processes.Process.callback_excepted')
     fl = [c for c in calls_in_func(ce_f, 'fail')]
     ok = len(fl) == 1 and [norm(a) for a in fl[0].args] == ce_f.params[2:4]
